@@ -96,13 +96,14 @@ fn graph_case(item: u64, rng: &mut Rng, acc: &mut Acc, emax: usize) {
         // replica of the natural f64 evaluation from the table's own numbers; if every partial sum
         // it produces equals the exact rational one, arithmetic at this subgraph is exact and the
         // boundary semantics ("reaches u": >=) can be checked without a rounding window
-        let exact_here = {
-            let jg = su.tv.j[gm as usize];
+        let exact_here = su.tv.is_some() && {
+            let tvv = su.tv.as_ref().unwrap();
+            let jg = tvv.j[gm as usize];
             let mut cum = 0.0f64;
             let mut ok = true;
             for (e, _lo, hi) in iv.iter() {
                 let sub = (gm ^ (1 << e)) as usize;
-                let p = su.tv.j[sub] / jg / su.tv.dod[sub];
+                let p = tvv.j[sub] / jg / tvv.dod[sub];
                 cum += p;
                 if !(cum.is_finite() && q(cum) == *hi) {
                     ok = false;
